@@ -229,6 +229,112 @@ func c12sched(c *core.Ctx) {
 	}
 }
 
+// c12batches: four requests of one kind are outstanding (registered for certain);
+// the peer acknowledges them 2nd, 1st, 4th, 3rd in one segment, so that the
+// library hands out two batches of two completions back to back.  Under every
+// interleaving (to the preemption bound) each completion callback fires exactly
+// once, with its own request.
+func c12batches(c *core.Ctx) {
+	bound := 2
+	if c.Thorough() {
+		bound = 3
+	}
+	for _, kind := range []string{"pub1", "sub", "pub2"} {
+		if !c.Mine() {
+			continue
+		}
+		if c.Expired() || c.HasViolation() {
+			return
+		}
+		kind := kind
+		name := fmt.Sprintf("sender-batches %s x4, acknowledged 2,1,4,3", kind)
+		body := func() {
+			w := NewClientWorld()
+			if !w.Connected("cid") {
+				return
+			}
+			w.Srv.Take()
+			for i := 0; i < 4; i++ {
+				var err error
+				if kind == "sub" {
+					_, err = w.Issue("sub", []string{fmt.Sprintf("s/%d", i)}, []byte{1}, "")
+				} else {
+					_, err = w.Issue(kind, []string{"t"}, nil, fmt.Sprintf("p%d", i))
+				}
+				if err != nil {
+					vsched.Failf("%s failed: %v", kind, err)
+					return
+				}
+			}
+			w.Settle()
+			var ids []uint16
+			for _, p := range w.Srv.Take() {
+				ids = append(ids, p.ID)
+			}
+			if len(ids) != 4 {
+				vsched.Failf("harness: %d requests on the wire", len(ids))
+				return
+			}
+			if kind == "pub2" {
+				// PUBREC / PUBREL for all four first
+				for _, id := range ids {
+					w.Srv.Send(&refcodec.Packet{Type: refcodec.PUBREC, ID: id})
+				}
+				w.Settle()
+				if rel := w.Srv.Take(); len(rel) != 4 {
+					vsched.Failf("four PUBRECs were answered by %s", Describe(rel))
+					return
+				}
+			}
+			if vsched.Failed() {
+				return
+			}
+			vsched.Mark()
+			var wire []byte
+			for _, k := range []int{1, 0, 3, 2} {
+				a := &refcodec.Packet{ID: ids[k]}
+				switch kind {
+				case "pub1":
+					a.Type = refcodec.PUBACK
+				case "pub2":
+					a.Type = refcodec.PUBCOMP
+				case "sub":
+					a.Type, a.Codes = refcodec.SUBACK, []byte{1}
+				}
+				wire = append(wire, refcodec.Encode(a)...)
+			}
+			w.Srv.Conn.Write(wire)
+			w.Srv.SentAck += 4
+			vsched.Quiesce()
+			for _, r := range w.Requests {
+				if r.Completed != 1 {
+					vsched.Failf("the completion callback of request %d (%s) fired %d times although every request was acknowledged exactly once", r.Idx, r.Kind, r.Completed)
+					return
+				}
+				if r.CompWrong != "" {
+					vsched.Failf("the completion callback of request %d %s", r.Idx, r.CompWrong)
+					return
+				}
+			}
+			vsched.Logf("ok")
+		}
+		st := c.RunSched(explore.SchedOpts{Name: name, Bound: bound, Cache: true, UseMark: true, Body: body, MaxPoints: 20000,
+			Check: func(r *vsched.Result) explore.Verdict {
+				if r.Status == vsched.StCrash {
+					return explore.Verdict{Violation: "a library goroutine panicked: " + firstLine(r.Crash), Outcome: "crash"}
+				}
+				if len(r.Failures) > 0 {
+					return explore.Verdict{Violation: r.Failures[0], Outcome: "fail"}
+				}
+				return explore.Verdict{Outcome: fmt.Sprint(r.Log)}
+			}},
+			func(v *explore.Violation) string { return "C12 " + name + " :: " + violClass(v.Message) })
+		if st != nil {
+			c.Rep.Sample(map[string]interface{}{"scenario": name, "bound": bound, "executions": st.Executions, "states": st.States})
+		}
+	}
+}
+
 // KnownForwardIDs is the fingerprint of the listed finding about forwarded packet identifiers.
 const KnownForwardIDs = "C12 forwarded PUBLISH keeps the publisher's packet identifier"
 
